@@ -32,6 +32,7 @@ fn contexts() -> Vec<(&'static str, Vec<&'static str>)> {
         ("two INPUTs on one line", vec!["10 {I}: PRINT \"m\": {I}"]),
         ("last statement of the program", vec!["10 PRINT \"z\"", "20 {I}"]),
         ("after READ with DATA pending", vec!["10 READ Q: {I}: READ R: PRINT Q;R", "20 DATA 4,5"]),
+        ("under THEN with an ELSE clause of two statements", vec!["10 IF 1 THEN {I} ELSE PRINT \"NO\": PRINT \"TAIL\"", "20 PRINT \"n\""]),
         ("under THEN whose condition has a side effect", vec!["10 IF RND(1) >= 0 THEN {I}", "20 PRINT \"n\""]),
         ("under ELSE whose condition has a side effect", vec!["10 IF RND(1) < 0 THEN PRINT 1 ELSE {I}"]),
     ]
@@ -201,6 +202,17 @@ pub fn run(_thorough: bool) -> Report {
                                 end: format!("{:?}", end),
                             };
                             classes.push(format!("{}|{}", got.end.chars().take(12).collect::<String>(), got.reenters));
+                            // whatever happened to the statement, the reply has been used up
+                            if s.state() == InterpreterState::Idle {
+                                if let Some(p) = s.it.verif_snapshot().pending_input {
+                                    out.push(mk(
+                                        "a consumed reply is still pending after the run".into(),
+                                        format!("replies {:?}: the run ended {} with the reply {:?} still pending (the next INPUT would take it without asking)", script, got.end, p),
+                                        hist.clone(),
+                                    ));
+                                    continue;
+                                }
+                            }
                             if got.end != want.end || got.prints != want.prints {
                                 out.push(mk(
                                     format!("reply {:?} is not equivalent to {} = {}", r.text, target, lit),
